@@ -239,11 +239,10 @@ func getConditionTags(condition influxql.Expr, schema *CleanSchema) []*influx.Po
 		case influxql.OR:
 			ltags := getConditionTags(expr.LHS, schema)
 			rtags := getConditionTags(expr.RHS, schema)
-			if ltags == nil {
-				return rtags
-			}
-			if rtags == nil {
-				return ltags
+			// a side without extractable tag equalities may match rows of any
+			// shard, so the whole OR cannot be used for shard pruning
+			if ltags == nil || rtags == nil {
+				return nil
 			}
 			return append(ltags, rtags...)
 		case influxql.EQ:
